@@ -123,6 +123,7 @@ fn main() {
                 timeout: std::time::Duration::from_secs(30),
                 out_dir: out_dir.clone(),
                 root: util::pbytes(&cwd),
+                extra_roots: vec![],
                 rules: vec![],
                 sched: sup::Sched { kind, seed, change_points: vec![], parblock },
                 log_all: args.iter().any(|a| a == "--all"),
